@@ -270,7 +270,7 @@ CHECKS["C06"] = {
     "rule": "a case = a sequence of 3..25 requests. Non-trivial = a request whose credential is well-formed (valid token or an old password) but insufficient for that endpoint/target, or sufficient only "
             "through the self-update / old-password rule; distinct = distinct (endpoint, credential kind, target class, body shape, outcome)",
     "assumptions": ["admin tokens stay admin after demotion/removal until they expire: the statement says 'administrator at login'"],
-    "required_classes": {"all": ["request:well-formed-credential-insufficient-or-self-rule", "cred:expired-aged", "cred:other-instance", "cred:tampered", "cred:both", "shape:dup-keys", "effect:200:add", "effect:200:update", "login:token-issued"]},
+    "required_classes": {"all": ["composite:right-and-wrong-logins-in-flight-together", "composite:token-used-then-replayed-after-expiry", "composite:field-omitted-right-after-a-successful-request", "request:well-formed-credential-insufficient-or-self-rule", "cred:expired-aged", "cred:other-instance", "cred:tampered", "cred:both", "shape:dup-keys", "effect:200:add", "effect:200:update", "login:token-issued"]},
     "jobs": [
         J("webapi", AGENT, "TestC06WebAPI", {"shards": 8, "checks": 60}, {"shards": 16, "checks": 3000}, toolchain="go126"),
     ],
@@ -449,7 +449,7 @@ CHECKS["C15"] = {
     "jobs": [
         J("untouched", VSTORE, "TestC15Untouched", {"shards": 6, "checks": 100}, {"shards": 16, "checks": 3000}),
         J("readonly", VTRACE, "TestC15ReadOnlyTrace", {"shards": 2, "checks": 25}, {"shards": 8, "checks": 600}),
-        J("faults", VTRACE, "TestC15FaultInjection", {"shards": 8, "checks": 2}, {"shards": 16, "checks": 60}),
+        J("faults", VTRACE, "TestC15FaultInjection", {"shards": 10, "checks": 2}, {"shards": 20, "checks": 50}),
     ],
 }
 
@@ -525,3 +525,9 @@ CHECKS["C20"]["jobs"].append({"name": "libfuzzer", "pkg": VPAM, "run": "NONE", "
     "cmd": ["{bin}/fuzz_pam", "-max_total_time={seconds}", "-seed={seed}", "-print_final_stats=1", "-max_len=700", "-artifact_prefix={replays}/libfuzzer-", "{corpus}"],
     "seed_corpus": ["010100024f4b", "010100024e4f", "7f7f01014f4b", "0101ffff4f4b", "010100014f", "01010000", "0101000a4f4b206d657373616765"],
     "quick": {"shards": 1, "seconds": 5}, "thorough": {"shards": 8, "seconds": 120, "timeout": 1200}})
+
+CHECKS["C09"]["jobs"].append(J("fsyncfailure", VTRACE, "TestC09FsyncFailure", {"shards": 5, "checks": 2}, {"shards": 20, "checks": 40}))
+CHECKS["C09"]["required_classes"]["all"] += ["failed-fsync-reported-as-failure", "fsync-failure:setadmin", "fsync-failure:update"]
+
+CHECKS["C07"]["jobs"].append(J("restart", AGENT, "TestC07AcrossRestart", {"shards": 1}, toolchain="go126", rapid=False))
+CHECKS["C07"]["required_classes"]["all"] += ["restart:GODEBUG=randautoseed=0"]
